@@ -3,9 +3,9 @@ import re
 CONFIG = dict(
     bin="c09",
     drv="drv_c09",
-    lean_modules=["MahfModel.Props.C09"],
-    namespaces=["MahfModel.Props.C09"],
-    shrink_lists=["sort"],
+    lean_modules=["MahfModel.Props.C09", "MahfModel.Props.C09Ord"],
+    namespaces=["MahfModel.Props.C09", "MahfModel.Props.C09Ord"],
+    shrink_lists=["xs", "ys"],
     level="proof",
     rule=("bit patterns of doubles: a grid of special values (both zeros, smallest/largest subnormals, smallest "
           "normals, 1, 1+eps, powers of two at the overflow boundaries 2^969/2^970/2^971/2^511/2^512/2^-1023/2^-1024, "
@@ -17,15 +17,34 @@ CONFIG = dict(
           "random lists of up to 120 elements; multi-objective constructor on all vectors of length <=3 over a 9-value grid, partial_cmp on "
           "pairs of vectors of length <=3 over a 7-value grid incl. unequal lengths (all 160801 pairs in the thorough "
           "tier; all pairs of length <=2, all over a 4-value grid, and 30000 sampled pairs in the quick tier), random "
-          "longer vectors, triples of vectors. A case is non-trivial if it involves at least two values or a vector; "
-          "distinct = distinct input."),
-    nontrivial=lambda inp: len(re.findall(r"x[0-9a-f]{16}", inp)) >= 2 or inp.startswith("(m"),
+          "longer vectors, triples of vectors; vectors of length 7..64 (some up to 300) in constructed relations (equal "
+          "up to the sign of zeros, dominating in 1-3 coordinates placed first / last / anywhere, trade-off, proper "
+          "prefix, one longer) with chains x<=y<=z, and constructor calls on such vectors with one or two illegal "
+          "coordinates first / last / anywhere. Users of the order: Ord::min/max (by value, std::cmp, through "
+          "references) on all pairs of a 14-value grid + random pairs, Ord::clamp on all triples of a 9-value grid "
+          "(incl. min > max) + random triples, lexicographic cmp/partial_cmp/==/</<= of Vec<SingleObjective> on all "
+          "pairs of lists of length <=2 over {-0,0,1,-1,inf} + random lists with shared prefixes; 26 std operations "
+          "(Iterator::min/max/min_by/max_by/min_by_key/max_by_key with value and reference keys, min/max/sort of "
+          "(objective,index) tuples, sort, sort_by(cmp), sort_by_key, sort_by_cached_key, sort_by_key(Reverse), "
+          "sort_unstable, sort_unstable_by, sort_unstable_by_key, select_nth_unstable_by_key, BinaryHeap, BTreeSet "
+          "collect and insert, BTreeMap insert, binary_search, dedup) and BestIndividual::best_individual on every "
+          "list of length <=3 over {-0,0,1,-1,inf}, every list of length 4 over {-0,0,1} and on random lists of up to "
+          "400 elements from tie-heavy pools, half of them with both zeros forced in. A case is non-trivial if it "
+          "involves at least two values or a vector; distinct = distinct input."),
+    nontrivial=lambda inp: len(re.findall(r"x[0-9a-f]{16}", inp)) >= 2 or inp.startswith("(m") or inp.startswith("(std")
+    or inp.startswith("(lex") or inp.startswith("(best"),
     trusted_base=[
         "hardware/LLVM IEEE-754 binary64 conformance (round-to-nearest-even) for the class of an arithmetic result; "
         "checked against the exact-integer model on every generated operand pair, incl. the rounding boundary MAX+2^970",
         "Rust core's f64::partial_cmp = match (a <= b, a >= b); derive(PartialOrd, PartialEq) on a one-field tuple struct "
         "delegates to the field; derive_more Add/Sub/Neg apply the f64 operator to the field, Mul/Div take a raw scalar",
-        "slice::sort / Iterator::min / max call Ord::cmp only (modelled as stable insertion sort / folds)"],
+        "std's collection algorithms touch the elements only through Ord::cmp / PartialOrd::partial_cmp / PartialEq::eq and "
+        "deliver what their documentation says (first of equal minima, last of equal maxima, stable sorts keep equal elements "
+        "in order, BTreeSet/BTreeMap::insert do not replace an equal key, Ord::min returns the first and Ord::max the second "
+        "of equal arguments, clamp asserts min <= max, slices compare lexicographically, dedup keeps the first of a run); "
+        "these documented results are what the model's comparison programs compute and what the harness compares against",
+        "f64::total_cmp = integer comparison of the bits with the low 63 bits flipped for negative patterns (read off core; "
+        "only used to characterise where it differs from the numeric order)"],
     assumptions=["SplitMix64-seeded generator", "a finite double is k * 2^-1074 for an integer k; the model stores k"],
 )
 CONFIG.update(
@@ -35,14 +54,28 @@ CONFIG.update(
                 "the numeric order, is antisymmetric and transitive, <= is total, sort/min/max never fail and return an "
                 "ordered permutation / bounding members; the code's flag-loop Pareto comparison equals the specification "
                 "(equal iff identical; dominates iff same length, nowhere worse, somewhere better; antisymmetric; transitive; "
-                "incomparable on length mismatch or trade-off) for vectors of any length. The arithmetic closure asked for by "
+                "incomparable on length mismatch or trade-off) for vectors of any length. Users of the order (Props/C09Ord): "
+                "ANY algorithm that can look at objective values only through cmp / partial_cmp / == (a decision tree over these "
+                "three questions, comparison_program_safe) never panics in a comparison and behaves exactly as under the numeric "
+                "order; the documented std algorithms (first-min, last-max, stable sort, Reverse, Ord::min/max/clamp, lexicographic "
+                "slice comparison, BTreeSet/BTreeMap insertion, dedup) are such programs, never fail, and Ord::min/max/clamp and set "
+                "insertion meet their specifications. At the level of bit patterns: two legal patterns compare Equal iff they are "
+                "the same pattern or the two zeros (cmp_eq_iff_bits), and f64::total_cmp agrees with the order everywhere except "
+                "on (-0.0, +0.0) / (+0.0, -0.0) (total_cmp_differs_exactly_on_zeros) - the inputs the generator forces into its "
+                "lists. The arithmetic closure asked for by "
                 "the property is FALSE of the code: counterexample theorems for every (operator, class) and exact iff "
                 "characterisations of the operand classes where closure holds (arith_closed_partial*). Tied to /repo by running "
-                "the real constructors, operators and comparisons on ~1.8e5 (quick) generated cases and diffing against the "
-                "compiled model (K) and against the specification-level predicates (O)."),
+                "the real constructors, operators, comparisons, the provided Ord methods, 26 std users of the order and "
+                "BestIndividual::best_individual on ~2.1e5 (quick) generated cases and diffing against the compiled model (K) and "
+                "against the specification-level predicates (O: numeric order + std's documented tie rules for std's own "
+                "algorithms; tie-agnostic for Ord::min/max/clamp, unstable sorts, heaps, collected sets and best_individual)."),
     level_note=("Trusted: Lean kernel; IEEE-754 conformance of the machine for result classes (exercised, not proved); "
                 "Rust's derive expansions as described in trusted_base; harness + driver printing. Arithmetic is modelled at "
                 "the level of the class (nan/-inf/+inf/finite) of the correctly rounded result, not the rounded value. "
+                "std's sorting / searching / tree code is not modelled: the theorem quantifies over all comparison-only "
+                "algorithms and the documented results are written down as programs (trusted_base), the real std code is run by the "
+                "harness. What cmp does on a NaN operator result (it panics today) is not pinned. Which error a vector holding both "
+                "NaN and -inf is rejected with is not pinned. "
                 "Known findings (recorded, not repaired): the derived Add/Sub/Mul/Div/Neg on SingleObjective return NaN or "
                 "-inf on legal operands, and a later cmp on a NaN result panics."),
 )
